@@ -62,7 +62,7 @@ def main():
     R.limit_is_finding = True
     cands = []
     fs = [(2, 2)] if tier == 'quick' else [(2, 2), (3, 2), (2, 3)]
-    ns = [(2, 2), (3, 2)] if tier == 'quick' else [(2, 2), (3, 2), (3, 3), (4, 2)]
+    ns = [(2, 2), (3, 2)] if tier == 'quick' else [(2, 2), (3, 2), (2, 3)]      # (3,3) / (4,2) exceed the path budget (measured in C12)
     for F, S in fs:
         cands += K.k_typename_search(R, F, S)
         cands += K.k_collect_used_types(R, F, S)
